@@ -30,10 +30,21 @@ type Step struct {
 	Collapse int      `json:"collapse"` // -1 = no Collapse, otherwise the depth
 	Persist  bool     `json:"persist"`  // flush the write cache to the backend after the commit
 	G        int      `json:"g"`
+	Pred     *Pred    `json:"pred,omitempty"` // prediction of the implementation-shaped model (TLC behaviours)
+}
+
+// Pred is the model's summary of the table after a step.
+type Pred struct {
+	Size   int `json:"size"`
+	Active int `json:"active"`
+	Refs   int `json:"refs"`
 }
 
 // History is a block-batch history over a universe of keys and values (hex strings).
 type History struct {
+	// API selects what is driven: "module" (default) = stateroot.Module (AddMPTBatch: PutBatch + Flush),
+	// "trie" = mpt.Trie directly with single Put / Delete calls and Flush (the non-batch restructuring paths).
+	API   string   `json:"api,omitempty"`
 	Mode  string   `json:"mode"` // latest | gc
 	Keys  []string `json:"keys"`
 	Vals  []string `json:"vals"`
@@ -48,6 +59,8 @@ type modWorld struct {
 	ps        *storage.MemoryStore
 	top       *storage.MemCachedStore
 	mod       *stateroot.Module
+	trie      *mpt.Trie // API "trie"
+	tmode     mpt.TrieMode
 	height    uint32
 	roots     []util.Uint256 // by height
 	prev      map[string]entry
@@ -90,7 +103,43 @@ func newModWorld(h *History) (*modWorld, error) {
 		return nil, err
 	}
 	w.roots = []util.Uint256{{}}
+	w.tmode = mpt.ModeLatest
+	if h.Mode != "latest" {
+		w.tmode = mpt.ModeGC
+	}
+	if h.API == "trie" {
+		w.trie = mpt.NewTrie(nil, w.tmode, w.top)
+	}
 	return w, nil
+}
+
+func (w *modWorld) layer() string {
+	if w.hist.API == "trie" {
+		return "trie"
+	}
+	return "module"
+}
+
+func (w *modWorld) latestRoot() util.Uint256 {
+	if w.trie != nil {
+		return w.trie.StateRoot()
+	}
+	return w.mod.CurrentLocalStateRoot()
+}
+
+// getState / findStates read through a root the way stateroot.Module.GetState / FindStates do.
+func (w *modWorld) getState(root util.Uint256, k []byte) ([]byte, error) {
+	if w.trie == nil {
+		return w.mod.GetState(root, k)
+	}
+	return mpt.NewTrie(mpt.NewHashNode(root), w.tmode&^mpt.ModeGCFlag, storage.NewMemCachedStore(w.top)).Get(k)
+}
+
+func (w *modWorld) findStates(root util.Uint256) ([]storage.KeyValue, error) {
+	if w.trie == nil {
+		return w.mod.FindStates(root, []byte{}, nil, 1000)
+	}
+	return mpt.NewTrie(mpt.NewHashNode(root), w.tmode&^mpt.ModeGCFlag, storage.NewMemCachedStore(w.top)).Find([]byte{}, nil, 1000)
 }
 
 func (w *modWorld) class() string {
@@ -106,7 +155,7 @@ func (w *modWorld) reads() []any {
 	for h, root := range w.roots {
 		get := [][2]string{}
 		for _, k := range w.keys {
-			v, err := w.mod.GetState(root, k)
+			v, err := w.getState(root, k)
 			r := "!"
 			if err == nil {
 				r = hex.EncodeToString(v)
@@ -114,7 +163,7 @@ func (w *modWorld) reads() []any {
 			get = append(get, [2]string{hex.EncodeToString(k), r})
 		}
 		find := [][2]string{}
-		kvs, err := w.mod.FindStates(root, []byte{}, nil, 1000)
+		kvs, err := w.findStates(root)
 		for _, kv := range kvs {
 			find = append(find, [2]string{hex.EncodeToString(kv.Key), hex.EncodeToString(kv.Value)})
 		}
@@ -130,7 +179,7 @@ func (w *modWorld) observe(ev map[string]any) map[string]any {
 	w.prev = cur
 	ev["put"], ev["del"] = put, del
 	ev["height"] = w.height
-	ev["latest"] = rootID(w.mod.CurrentLocalStateRoot())
+	ev["latest"] = rootID(w.latestRoot())
 	ev["size"] = len(cur)
 	ev["reads"] = w.reads()
 	return ev
@@ -143,7 +192,7 @@ func runModule(res *vh.Result, tr *vh.Trace, src string, h *History) bool {
 		res.Inc("histories_skipped", 1)
 		return false
 	}
-	tr.Emit(map[string]any{"event": "init", "layer": "module", "mode": h.Mode, "src": src, "keys": h.Keys, "vals": h.Vals})
+	tr.Emit(map[string]any{"event": "init", "layer": w.layer(), "mode": h.Mode, "src": src, "keys": h.Keys, "vals": h.Vals})
 	done := []any{}
 	for si := range h.Steps {
 		st := h.Steps[si]
@@ -168,6 +217,18 @@ func runModule(res *vh.Result, tr *vh.Trace, src string, h *History) bool {
 				}
 				ev = map[string]any{"event": "persist"}
 			case "reinit":
+				if w.latestRoot().Equals(util.Uint256{}) {
+					// Module.Init wraps the stored root into a hash node even when it is the root of the empty
+					// trie (which has no node); a real ledger is never empty, so this corner is left out.
+					res.Inc("reinit_skipped_empty_root", 1)
+					ev = map[string]any{"event": "reinit", "skipped": true}
+					break
+				}
+				if w.trie != nil {
+					w.trie = mpt.NewTrie(mpt.NewHashNode(w.latestRoot()), w.tmode, w.top)
+					ev = map[string]any{"event": "reinit"}
+					break
+				}
 				m := stateroot.NewModule(w.cfg, nil, zap.NewNop(), w.top)
 				if err := m.Init(w.height); err != nil {
 					panic(fmt.Sprintf("Init(%d): %v", w.height, err))
@@ -180,14 +241,32 @@ func runModule(res *vh.Result, tr *vh.Trace, src string, h *History) bool {
 			ev = w.observe(ev)
 		}()
 		if paniced != nil {
-			res.Violate(map[string]any{"kind": "panic", "op": st.Op, "mode": h.Mode, "layer": "module", "history": w.class()},
-				fmt.Sprintf("Go panic escaped stateroot.Module during %s: %v", st.Op, paniced),
+			res.Violate(map[string]any{"kind": "panic", "op": st.Op, "mode": h.Mode, "layer": w.layer(), "history": w.class()},
+				fmt.Sprintf("Go panic escaped %s during %s: %v", w.layer(), st.Op, paniced),
 				map[string]any{"history": h, "steps_done": done, "src": src})
 			res.Inc("panics", 1)
 			return false
 		}
 		ev["class"] = w.class()
 		tr.Emit(ev)
+		if st.Pred != nil {
+			obs := Pred{}
+			for _, e := range w.prev {
+				obs.Size++
+				if e.Active {
+					obs.Active++
+					obs.Refs += int(e.Count)
+				}
+			}
+			if obs != *st.Pred {
+				res.AddDrift(map[string]any{"src": src, "step": si + 1, "op": st.Op, "class": w.class(), "predicted": st.Pred, "observed": obs})
+				res.Inc("drift", 1)
+				if !w.discarded {
+					res.Inc("drift_committed_only", 1)
+				}
+			}
+			res.Inc("predictions_compared", 1)
+		}
 		res.Count([]any{h.Mode, st.Op, st.Commit, ev["latest"], ev["size"], len(ev["put"].([]entry)), len(ev["del"].([]string))})
 	}
 	res.Traces++
@@ -215,6 +294,9 @@ func (w *modWorld) block(st Step) map[string]any {
 		ch = append(ch, [2]string{hex.EncodeToString(k), vs})
 	}
 	sort.Slice(ch, func(i, j int) bool { return ch[i][0] < ch[j][0] })
+	if w.trie != nil {
+		return w.trieBlock(st, index, ch)
+	}
 	cache := storage.NewPrivateMemCachedStore(w.top)
 	var (
 		t   *mpt.Trie
@@ -248,4 +330,35 @@ func (w *modWorld) block(st Step) map[string]any {
 		}
 	}
 	return ev
+}
+
+// trieBlock applies the changes of one block with single Put / Delete calls on the trie (in the order of
+// the batch) and flushes it, the way a user of mpt.Trie without batches does.
+func (w *modWorld) trieBlock(st Step, index uint32, ch [][2]string) map[string]any {
+	for _, c := range st.Ch {
+		var err error
+		if c.V > 0 {
+			err = w.trie.Put(w.keys[c.K-1], w.vals[c.V-1])
+		} else {
+			err = w.trie.Delete(w.keys[c.K-1])
+		}
+		if err != nil {
+			return map[string]any{"event": "block", "h": index, "committed": false, "failed": true, "err": err.Error(),
+				"ch": ch, "collapse": st.Collapse, "root": ""}
+		}
+	}
+	w.trie.Flush(index)
+	if st.Collapse >= 0 {
+		w.trie.Collapse(st.Collapse)
+	}
+	root := w.trie.StateRoot()
+	w.height = index
+	w.roots = append(w.roots, root)
+	if st.Persist {
+		if _, err := w.top.Persist(); err != nil {
+			panic(err)
+		}
+	}
+	return map[string]any{"event": "block", "h": index, "committed": true, "failed": false, "ch": ch,
+		"collapse": st.Collapse, "root": rootID(root), "persist": st.Persist}
 }
